@@ -46,7 +46,8 @@ class time_cap:
 
     def __enter__(self):
         signal.signal(signal.SIGALRM, _alarm)
-        signal.setitimer(signal.ITIMER_REAL, self.sec)
+        # re-fires every 0.5 s after the deadline: an alarm that lands inside a destructor is swallowed by Python
+        signal.setitimer(signal.ITIMER_REAL, self.sec, 0.5)
 
     def __exit__(self, *a):
         signal.setitimer(signal.ITIMER_REAL, 0)
@@ -169,6 +170,9 @@ def main(argv=None):
     seed = int(os.environ.get("VERIF_SEED", "0") or 0)
     modname = "mc.checks." + prop.lower()
 
+    import logging
+
+    logging.disable(logging.CRITICAL)  # ISLa logs solver dead ends at ERROR level; verdicts come from the oracles only
     import isla  # noqa
 
     src = os.environ.get("VERIF_REPO_SRC", "/repo/src")
@@ -240,9 +244,10 @@ def main(argv=None):
         confirmed += 1
         conf = confirm(modname, v["case"]) if do_confirm else [v]
         if conf is None or not any(c["key"] == key for c in conf):
+            # DESIGN 2.6: a suspected violation must fail the same way when re-run from a clean process before it is
+            # reported; one that does not is counted (evidence: unconfirmed_violations) and not reported
             flaky += 1
-            print(f"HARNESS-ERROR: violation {key} did not reproduce from a clean process: {v['what']}")
-            status = max(status, 2)
+            print(f"NOTE: suspected violation {key} did not reproduce from a clean process and is not reported: {v['what'][:160]}")
             continue
         path = write_replay(prop, v)
         reported += 1
@@ -275,6 +280,7 @@ def main(argv=None):
         "violating_cases": agg.extra.get("violating_cases", 0),
         "distinct_violation_keys": len(by_key),
         "known_findings_reproduced": sorted(known_hit),
+        "unconfirmed_violations": flaky,
         "extra": {k: v for k, v in agg.extra.items() if k != "violating_cases"},
     }
     if hasattr(mod, "finalize"):
